@@ -129,6 +129,19 @@ func genFleetScript(g *Gen, n int, native bool, steps int, withFaults, withResta
 	return f.lines
 }
 
+// genLoopRestart: as genLoop, with crashes/restarts (LMDB kept or emptied) and failing stores.
+func genLoopRestart(g *Gen, n int) {
+	count := n / 20
+	if count < 10 {
+		count = 10
+	}
+	for i := 0; i < count; i++ {
+		native := g.R.Intn(2) == 0
+		class := map[bool]string{true: "native", false: "shadow"}[native]
+		g.Emit("fleet-restart/"+class, genFleetScript(g, 2+g.R.Intn(2), native, 25+g.R.Intn(40), true, true)...)
+	}
+}
+
 func genLoop(g *Gen, n int) {
 	count := n / 20
 	if count < 10 {
